@@ -100,6 +100,25 @@ Definition prepare (nhi : nh_info) (flag : bool) : nh_info :=
 Definition build_report (local : nh_info) (vers : list (N * N)) (flag : bool) : option report :=
   send_report (prepare local flag) vers flag.
 
+(** ** one reporting round over several Drummer servers (node.go reportNodeHostInfo)
+
+    The NodeHostInfo is read and prepared ONCE; the servers are tried in (shuffled) order until one accepted the report.
+    Every server answers the index list call from its own view; a server can fail that call (nothing is sent to it) or fail
+    the report call after the report arrived.  What each contacted server receives is computed from the same local
+    information and from THAT server's versions. *)
+Inductive srv_mode := MAccept | MFailReport | MFailIndex.
+
+Fixpoint report_round (local : nh_info) (flag : bool) (servers : list (list (N * N) * srv_mode)) : list (option report) :=
+  match servers with
+  | [] => []
+  | (vers, m) :: t =>
+    match m with
+    | MFailIndex => None :: report_round local flag t
+    | MFailReport => build_report local vers flag :: report_round local flag t
+    | MAccept => [build_report local vers flag]
+    end
+  end.
+
 (** * 2. Requests *)
 
 Inductive rtype := TCreate | TDelete | TAdd | TKill | TUnknown.
